@@ -285,12 +285,13 @@ class Bits:
 
     @staticmethod
     def _resolve_alias(st, key):
-        for _ in range(4):
-            if key[1] == () and ("alias", key[0]) in st:
-                key = st[("alias", key[0])][1]
-            else:
-                break
-        return key
+        """Tuple of keys denoting the same value: the key itself and what it is a copy/view of."""
+        keys = [key]
+        if key[1] == () and ("alias", key[0]) in st:
+            for k in st[("alias", key[0])][1]:
+                if k not in keys:
+                    keys.append(k)
+        return tuple(keys)
 
     def val_place(self, st, place):
         k = _pk(place)
@@ -347,7 +348,7 @@ class Bits:
                 continue
             del st[kk]
         # facts that mention this key
-        for kk in [kk for kk in st if kk[0] in ("cond", "and", "alias") and st[kk][1][0] == key[0]]:
+        for kk in [kk for kk in st if kk[0] in ("cond", "and", "alias") and any(k1[0] == key[0] for k1 in st[kk][1])]:
             del st[kk]
 
     # ------------------------------------------------------------------ transfer
@@ -496,6 +497,8 @@ class Bits:
                 val = a.map2(b.map(BV.not_), BV.and_)
             elif kind in ("id", "id_mode"):
                 val = a
+                if akey is not None:
+                    fact = ("alias", ("alias", akey))
                 if kind == "id" and args[0].place is not None and args[0].place.is_local:
                     f = st.get(("and", args[0].place.local))
                     if f is not None:
@@ -548,7 +551,7 @@ class Bits:
                 kk = _pk(tp)
                 for k2 in [k2 for k2 in st if isinstance(k2[0], int) and k2[0] == kk[0] and k2[1][: len(kk[1])] == kk[1]]:
                     st[k2] = TOP
-                for k2 in [k2 for k2 in st if k2[0] in ("cond", "and", "alias") and st[k2][1][0] == kk[0]]:
+                for k2 in [k2 for k2 in st if k2[0] in ("cond", "and", "alias") and any(k1[0] == kk[0] for k1 in st[k2][1])]:
                     del st[k2]
             if m == "default" and t.rty and t.rty.endswith("OpenHow") and dest is not None:
                 dk = _pk(dest)
@@ -603,35 +606,37 @@ class Bits:
         else:
             return st
         holds = (truth == pos)   # does the predicate hold on this edge?
-        cur = st.get(key)
-        if cur is None:
-            cur = TOP
-        new = []
-        for a in cur.alts:
-            if kind == "contains":
-                if holds:
-                    if a.c & mask:
-                        continue
-                    new.append(BV(a.s | mask, a.c, a.nc, a.keep, a.src))
-                else:
-                    if (a.s & mask) == mask:
-                        continue
-                    c2 = a.c | (mask if _single_bit(mask) else 0)
-                    new.append(BV(a.s, c2, set(a.nc) | {mask}, a.keep, a.src))
-            elif kind == "iszero":
-                if holds:
-                    if a.s & mask:
-                        continue
-                    new.append(BV(a.s, a.c | mask, a.nc, a.keep, a.src))
-                else:
-                    if (a.c & mask) == mask:
-                        continue
-                    s2 = a.s | (mask if _single_bit(mask) else 0)
-                    new.append(BV(s2, a.c, a.nc, a.keep, a.src))
-        if not new:
-            return None
+        keys = key if (key and isinstance(key[0], tuple)) else (key,)
         st = dict(st)
-        st[key] = Val(new)
+        for k1 in keys:
+            cur = st.get(k1)
+            if cur is None:
+                cur = self._lookup(st, k1) or TOP
+            new = []
+            for a in cur.alts:
+                if kind == "contains":
+                    if holds:
+                        if a.c & mask:
+                            continue
+                        new.append(BV(a.s | mask, a.c, a.nc, a.keep, a.src))
+                    else:
+                        if (a.s & mask) == mask:
+                            continue
+                        c2 = a.c | (mask if _single_bit(mask) else 0)
+                        new.append(BV(a.s, c2, set(a.nc) | {mask}, a.keep, a.src))
+                elif kind == "iszero":
+                    if holds:
+                        if a.s & mask:
+                            continue
+                        new.append(BV(a.s, a.c | mask, a.nc, a.keep, a.src))
+                    else:
+                        if (a.c & mask) == mask:
+                            continue
+                        s2 = a.s | (mask if _single_bit(mask) else 0)
+                        new.append(BV(s2, a.c, a.nc, a.keep, a.src))
+            if not new:
+                return None
+            st[k1] = Val(new)
         return st
 
     # ------------------------------------------------------------------ fixpoint
